@@ -205,10 +205,15 @@ func vfC08(w *vfWorld) {
 		if t.Prob("c08.form", 120) {
 			formLogin()
 		} else {
-			login(identities[t.Choice("c08.user", len(identities))])
+			u := identities[t.Choice("c08.user", len(identities))]
+			if t.Prob("c08.odd", 300) {
+				u = identities[6] // the address with several @
+			}
+			login(u)
 		}
 	}
 	for _, s := range sessions {
+		request(s, "before change")
 		request(s, "before change")
 	}
 	nchg := 1 + t.Choice("c08.nchanges", 3)
@@ -395,7 +400,14 @@ func vfC08Query(t *vfTape, email string, groups []string) (q string, ok bool, ei
 		}
 	}
 	if t.Bool("c08.q.domains") {
-		vals := list("c08.q.d", []string{"example.com", dom, "other.org", "evil.test", "corp.example", "ample.com", "sub.example.com"})
+		pool := []string{"example.com", dom, "other.org", "evil.test", "corp.example", "ample.com", "sub.example.com"}
+		if segs := strings.Split(email, "@"); len(segs) > 2 {
+			// several @: every inner segment looks like a domain to a careless parser
+			pool = append(pool, segs[1:len(segs)-1]...)
+			pool = append(pool, segs[1:len(segs)-1]...)
+			pool = append(pool, segs[1:len(segs)-1]...)
+		}
+		vals := list("c08.q.d", pool)
 		render("allowed_email_domains", vals)
 		hit := strings.Join(vals, "") == "" // only empty items: no constraint
 		for _, v := range vals {
